@@ -90,3 +90,18 @@ Inductive Sub : fset -> fset -> Prop :=
 | Sub_field : forall s e t, In e (fields s) -> fe_sub e <> [] -> Sub (subset_of e) t -> Sub s t.
 
 End Spec.
+
+(* the test findConflict makes on two fields, closed under exchanging them
+   (sameArguments is symmetric when argument names are unique) *)
+Definition base2 (S : schema) (ex : bool) (a b : fentry) : bool :=
+  base_ok S ex a b && base_ok S ex b a.
+
+(* the selection sets the rule is called on, and every fragment body with the parent
+   type getReferencedFieldsAndFragmentNames computes for it *)
+Definition doc_sets (S : schema) (D : document) (s : fset) : Prop :=
+  In s (all_sets S D) \/ exists g, fbody S D g = Some s.
+
+Definition L2_accepts (S : schema) (D : document) : Prop :=
+  forall s, doc_sets S D s -> within S D (base2 S) s.
+Definition L1_accepts (S : schema) (D : document) : Prop :=
+  forall s, doc_sets S D s -> L1 S D (base2 S) s.
